@@ -7,6 +7,8 @@ Fault kinds per exchange (fault_fn(index, apdu)): "send_err" (BrokenPipeError),
 through `refuse` (next N connects fail)."""
 import struct
 
+from sim.kernel import check_foreign as _check_foreign
+
 _LINK = None
 
 
@@ -38,6 +40,7 @@ class TcpLink:
         self.stats.faults = {}
 
     def _seam(self):
+        _check_foreign()
         if self.crash_check:
             self.crash_check()
 
